@@ -169,5 +169,16 @@ func outcome(res ox.Result) string {
 	case res.Err != nil:
 		return "err:" + ox.ErrClass(res.Err)
 	}
-	return "ok:" + ox.Canon(res.Value)
+	return "ok:" + safeCanon(res.Value)
+}
+
+// safeCanon is ox.Canon behind a recover: a malformed Value handed back by the
+// API must not kill the harness (it is reported by the accessor sweep).
+func safeCanon(v otto.Value) (s string) {
+	defer func() {
+		if recover() != nil {
+			s = "<accessor panicked>"
+		}
+	}()
+	return ox.Canon(v)
 }
